@@ -232,7 +232,7 @@ def make_harness(K: int, first_ops: list[str], digest_sizes: list[int], max_hand
             if step in restrict:
                 ops = [o for o in ops if o in restrict[step]]
             if step in forced:
-                if forced[step] not in ops and not (forced[step] in ("save_detach", "load_saved", "replace_rejected_after_registration") and handles):
+                if forced[step] not in ops and not (forced[step] in ("save_detach", "load_saved", "replace_rejected_after_registration", "query") and handles):
                     e.assume(False)
                 op = forced[step]
             else:
@@ -325,6 +325,43 @@ def make_harness(K: int, first_ops: list[str], digest_sizes: list[int], max_hand
                     if not raised or before != after:
                         scenario.update(raised=raised, before=sorted(before), after=sorted(after))
                         e.fail("failed-replace-changes-registry", scenario=scenario)
+                elif op == "query":
+                    # read-only library calls on the node: none of them may keep it (or its subtree) alive
+                    kind = e.pick(["find", "findall", "xpath-object", "pattern", "multi-pattern", "Tree", "to_tree", "traversals", "visitor", "serialize", "rich", "eq-hash"], f"query{step}")
+                    from pyoak.match.pattern import MultiPatternMatcher, NodeMatcher
+                    from pyoak.match.xpath import ASTXpath
+                    from pyoak.tree import Tree
+                    from pyoak.visitor import ASTTransformVisitor
+
+                    if kind == "find":
+                        h.find("//VLeaf"), h.find("/VMany/@items[0]VLeaf")
+                    elif kind == "findall":
+                        list(h.findall("//VLeaf")), list(h.findall("//@items VBase"))
+                    elif kind == "xpath-object":
+                        xp = ASTXpath("//VBase")
+                        list(xp.findall(h)), xp.match(h, h)
+                        del xp
+                    elif kind == "pattern":
+                        NodeMatcher.from_pattern("(* @v -> x)")[0].match(h), NodeMatcher.from_pattern("(VMany @items=[* -> t])")[0].match(h)
+                    elif kind == "multi-pattern":
+                        MultiPatternMatcher([("a", "(VMany @items -> i)"), ("b", "(* )")]).match(h)
+                    elif kind == "Tree":
+                        t_ = Tree(h)
+                        t_.get_depth(h), t_.get_xpath(h), t_.is_in_tree(h)
+                        del t_
+                    elif kind == "to_tree":
+                        h.to_tree()
+                    elif kind == "traversals":
+                        list(h.dfs()), list(h.bfs()), list(h.gather(VLeaf)), h.children
+                    elif kind == "visitor":
+                        ASTTransformVisitor().transform(h)
+                    elif kind == "serialize":
+                        h.as_dict(), h.to_json(), h.to_msgpck(), h.to_yaml()
+                    elif kind == "rich":
+                        h.__rich__(), repr(h), str(h)
+                    else:
+                        h == h, hash(h), {h: 1}, h.is_equal(h)
+                    history.append(f"{kind}(h{hi})  # read-only query")
                 elif op == "detach":
                     h.detach()
                     for o in _closure([h]):
@@ -522,6 +559,10 @@ def spec(tier: str, seed: int) -> Spec:
         for nxt in ["leaf", "parent", "duplicate", "detach_self", "replace", "roundtrip", "drop", "replace_rejected_after_registration"]:
             fams.append(Family(f"late-rejection-K3-size{size}-{nxt}", make_harness(3, ["leaf"], [size], forced={0: "leaf", 1: "replace_rejected_after_registration", 2: nxt}, validated_leaf=True), variables=var))
             fams.append(Family(f"late-rejection-K4-size{size}-{nxt}", make_harness(4, ["leaf"], [size], forced={0: "leaf", 1: nxt, 2: "replace_rejected_after_registration"}, restrict={3: ["leaf", "drop", "roundtrip", "detach_self"]}, validated_leaf=True), variables=var))
+    # read-only queries must not keep nodes alive: build, query, drop (and drop again)
+    for size in (8,):
+        fams.append(Family(f"queries-then-drop-K4-size{size}", make_harness(4, ["leaf"], [size], forced={0: "leaf", 1: "parent", 2: "query", 3: "drop"}), variables=var + "; selector: which read-only library call was made"))
+        fams.append(Family(f"queries-then-drop-K5-size{size}", make_harness(5, ["leaf"], [size], forced={0: "leaf", 1: "parent", 2: "query", 3: "drop", 4: "drop"}), variables=var + "; selector: which read-only library call was made"))
     fams.append(Family("id-determinism-per-field-kind", determinism_harness, variables="selectors: class (non-comparable / non-init / both / slotted / falsy ...), digest size, origin, child, how the predecessor left the registry"))
     Kmax = plan[-1][0]
     return Spec(
